@@ -185,32 +185,33 @@ type Violation struct {
 
 // World is the state of one simulated run.
 type World struct {
-	Seed    uint64
-	Cfg     EngineConfig
-	Node    *Node
-	Actors  []*Actor
-	Ledger  *Ledger
-	Height  int64
-	Time    time.Time
-	Labels  map[string]string
-	Mods    []Module
-	modIdx  map[string]Module
-	Viol    []*Violation
-	violKey map[string]bool
-	Counts  map[string]int64 // probes, fault counters, op outcome counters
-	States  map[[8]byte]struct{}
-	Sched   *Schedule
-	Replay  bool
-	nextOp  int
-	weights map[string]int
-	gasMax  map[string]uint64
-	gasMin  map[string]uint64
-	denoms  map[string]*big.Int // genesis funding per actor
-	fp      [32]byte
-	curOp   int
-	SimSpan time.Duration
-	TxTotal int64
-	NodeOpt NodeOptions
+	Seed      uint64
+	Cfg       EngineConfig
+	Node      *Node
+	Actors    []*Actor
+	Ledger    *Ledger
+	Height    int64
+	Time      time.Time
+	Labels    map[string]string
+	Mods      []Module
+	modIdx    map[string]Module
+	Viol      []*Violation
+	violKey   map[string]bool
+	Counts    map[string]int64 // probes, fault counters, op outcome counters
+	States    map[[8]byte]struct{}
+	Sched     *Schedule
+	Replay    bool
+	nextOp    int
+	weights   map[string]int
+	gasMax    map[string]uint64
+	gasMin    map[string]uint64
+	denoms    map[string]*big.Int // genesis funding per actor
+	fp        [32]byte
+	appDigest [32]byte
+	curOp     int
+	SimSpan   time.Duration
+	TxTotal   int64
+	NodeOpt   NodeOptions
 	// PostBuild hooks that modules register (taps, registries)
 	postBuild []func(n *Node)
 	// FocusProperty: the property a run is deciding ("" = all)
